@@ -282,7 +282,281 @@ theorem dkg_included_at_least_quorum {sh : Nat → List Nat} {ops : List Addr} {
     · cases h
     · cases h
 
-/-! ## monitor soundness / non-vacuity -/
+/-! ## signing: exactly the honest threshold is included -/
+
+theorem all_valid_of_members {ops : List Addr} {ready : List Nat} (hv : ∀ m ∈ ready, m ∈ members ops) :
+    ready.all (validMember ops) = true := by
+  rw [List.all_eq_true]
+  intro m hm
+  simpa [validMember] using mem_members.1 (hv m hm)
+
+/-- a duplicate-free list split in two: filtering out the tail leaves the head -/
+theorem filter_not_tail {α} [BEq α] [LawfulBEq α] (a b : List α) (hn : (a ++ b).Nodup) :
+    (a ++ b).filter (fun x => !b.contains x) = a := by
+  rw [List.filter_append]
+  have hdis : ∀ x ∈ a, x ∉ b := fun x hx hb => (List.nodup_append.1 hn).2.2 x hx x hb rfl
+  have h1 : a.filter (fun x => !b.contains x) = a := by
+    apply List.filter_eq_self.2
+    intro x hx
+    simpa using hdis x hx
+  have h2 : b.filter (fun x => !b.contains x) = [] := by
+    apply List.filter_eq_nil_iff.2
+    intro x hx
+    simpa using hx
+  rw [h1, h2, List.append_nil]
+
+/-- the qualified seats returned by the retry package are as many as the ready members whose
+    operator is qualified -/
+theorem qualified_length {ops : List Addr} {ready : List Nat} {q : List Addr}
+    (hs : IsSelection (ready.map (opOf ops)) q) :
+    (ready.filter (fun m => q.contains (opOf ops m))).length = q.length := by
+  obtain ⟨p, hp⟩ := hs
+  have : q = (ready.map (opOf ops)).filter (fun o => q.contains o) := by
+    conv => lhs; rw [hp]
+    rw [hp, filter_contains_filter]
+  conv => rhs; rw [this]
+  rw [length_filter_map]
+
+theorem includedOf_filter_not (ops : List Addr) (p : Nat → Bool) :
+    includedOf ops ((members ops).filter (fun m => !p m)) = (members ops).filter p := by
+  unfold includedOf
+  apply List.filter_congr
+  intro m hm
+  by_cases hp : p m = true <;> simp [List.mem_filter, hm, hp]
+
+/-- C10, signing: for real shuffles, a duplicate-free ready list of group members with at least
+    `threshold` entries yields a selection whose included members (the group members that are not
+    excluded) are exactly `threshold` many, all of them ready. -/
+theorem signing_included_exact {sr st : Nat → List Nat} (hsr : ValidShuf sr) (hst : ValidShuf st)
+    {ops : List Addr} {thr : Nat} {ready : List Nat} (hn : ready.Nodup)
+    (hv : ∀ m ∈ ready, m ∈ members ops) (ht : thr ≤ ready.length) :
+    ∃ ex, signingSelection sr st ops thr ready = .ok ex
+      ∧ (includedOf ops ex).length = thr ∧ ∀ m ∈ includedOf ops ex, m ∈ ready := by
+  obtain ⟨q, hq, hqlen⟩ := signing_at_least_k hsr (ready.map (opOf ops)) thr (by simpa using ht)
+  have hinc0 : ((members ops).filter (isIncluded ops q ready)).length = q.length := by
+    have := length_members_filter hn hv (fun m => q.contains (opOf ops m))
+    rw [show (isIncluded ops q ready) = (fun m => (fun m => q.contains (opOf ops m)) m && ready.contains m) from rfl,
+      this, qualified_length (signing_isSelection hq)]
+  have hsub : ∀ ex, signingSelection sr st ops thr ready = .ok ex → ∀ m ∈ includedOf ops ex, m ∈ ready := by
+    intro ex hex m hm
+    have := List.mem_filter.1 hm
+    exact signing_included_ready hex this.1 (by simpa using this.2)
+  unfold signingSelection readyOperators at hsub ⊢
+  rw [if_neg (by rw [all_valid_of_members hv]; simp)] at hsub ⊢
+  rw [hq] at hsub ⊢
+  dsimp only at hsub ⊢
+  by_cases hlt : thr < ((members ops).filter (isIncluded ops q ready)).length
+  · rw [if_pos hlt] at hsub ⊢
+    refine ⟨_, rfl, ?_, hsub _ rfl⟩
+    -- included after trimming = the first `thr` entries of the shuffled included list
+    generalize hI : (members ops).filter (isIncluded ops q ready) = inc at hlt hinc0 ⊢
+    have hperm : (applyPerm (st inc.length) inc).Perm inc := applyPerm_perm (hst _)
+    have hincnd : inc.Nodup := by
+      rw [← hI]; exact ((members_sorted ops).imp (fun h => Nat.ne_of_lt h)).sublist List.filter_sublist
+    generalize hS : applyPerm (st inc.length) inc = sh at hperm ⊢
+    have hshnd : sh.Nodup := hperm.nodup_iff.2 hincnd
+    have hfinal : includedOf ops ((members ops).filter (fun m =>
+          ((members ops).filter (fun m => !isIncluded ops q ready m)).contains m || (sh.drop thr).contains m))
+        = inc.filter (fun m => !(sh.drop thr).contains m) := by
+      unfold includedOf
+      rw [← hI, List.filter_filter]
+      apply List.filter_congr
+      intro m hm
+      by_cases hi : isIncluded ops q ready m = true <;> by_cases hd : m ∈ sh.drop thr <;>
+        simp [List.mem_filter, hm, hi, hd]
+    rw [hfinal, (hperm.symm.filter _).length_eq]
+    have := filter_not_tail (sh.take thr) (sh.drop thr) (by rw [List.take_append_drop]; exact hshnd)
+    rw [List.take_append_drop] at this
+    rw [this, List.length_take]
+    have : sh.length = inc.length := hperm.length_eq
+    omega
+  · rw [if_neg hlt] at hsub ⊢
+    refine ⟨_, rfl, ?_, hsub _ rfl⟩
+    rw [includedOf_filter_not]
+    omega
+
+/-! ## `sort.Slice` on distinct member indexes is the filter of the ascending member list -/
+
+/-- Sorting any duplicate-free list `l` of elements of an ascending list `mem` gives
+    `mem.filter (· ∈ l)` — this is how the model writes the two `sort.Slice` calls of
+    `excludedMembersIndexes`. -/
+theorem sort_is_filter (mem : List Nat) (hm : mem.Pairwise (· < ·)) (l : List Nat) (hn : l.Nodup)
+    (hs : ∀ x ∈ l, x ∈ mem) :
+    l.mergeSort (fun a b => decide (a ≤ b)) = mem.filter (fun x => l.contains x) := by
+  apply List.Perm.eq_of_pairwise (le := fun a b => decide (a ≤ b) = true)
+  · intro a b _ _ h1 h2
+    simp at h1 h2
+    exact Nat.le_antisymm h1 h2
+  · apply List.pairwise_mergeSort
+    · intro a b c h1 h2; simp at h1 h2 ⊢; exact Nat.le_trans h1 h2
+    · intro a b; simp; exact Nat.le_total a b
+  · exact (hm.filter _).imp (fun h => by simpa using Nat.le_of_lt h)
+  · refine (List.mergeSort_perm l _).trans ?_
+    apply (List.perm_ext_iff_of_nodup hn ((hm.imp (fun h => Nat.ne_of_lt h)).filter _)).2
+    intro a
+    simp only [List.mem_filter, List.contains_iff_mem]
+    exact ⟨fun h => ⟨hs a h, h⟩, fun h => h.2⟩
+
+/-- the final `sort.Slice(excludedMembersIndexes)` of the code: `excluded ++ surplus` sorted is the
+    list the model returns -/
+theorem signing_sort_faithful (ops : List Addr) (excluded surplus : List Nat)
+    (hn : (excluded ++ surplus).Nodup) (hs : ∀ x ∈ excluded ++ surplus, x ∈ members ops) :
+    (excluded ++ surplus).mergeSort (fun a b => decide (a ≤ b))
+      = (members ops).filter (fun m => excluded.contains m || surplus.contains m) := by
+  rw [sort_is_filter (members ops) (members_sorted ops) _ hn hs]
+  apply List.filter_congr
+  intro m _
+  simp [List.contains_iff_mem, List.mem_append]
+
+/-- the "sort in ascending order just in case" of the included list is a no-op: the list is built
+    in ascending member order -/
+theorem included_sort_noop (ops : List Addr) (p : Nat → Bool) :
+    ((members ops).filter p).mergeSort (fun a b => decide (a ≤ b)) = (members ops).filter p :=
+  List.mergeSort_of_pairwise
+    (((members_sorted ops).filter p).imp (fun h => by simpa using Nat.le_of_lt h))
+
+
+/-! ## monitor soundness: the monitors accept every model output -/
+
+theorem isStrictlyAscending_of_pairwise : ∀ {l : List Nat}, l.Pairwise (· < ·) → isStrictlyAscending l = true
+  | [], _ => rfl
+  | [_], _ => rfl
+  | a :: b :: rest, h => by
+    simp only [isStrictlyAscending, Bool.and_eq_true, decide_eq_true_eq]
+    exact ⟨(List.pairwise_cons.1 h).1 b (by simp),
+      isStrictlyAscending_of_pairwise (List.pairwise_cons.1 h).2⟩
+
+theorem wellFormed_iff {ops : List Addr} {ready : List Nat} :
+    wellFormedReady ops ready = true ↔ (∀ m ∈ ready, m ∈ members ops) ∧ ready.Nodup := by
+  simp only [wellFormedReady, Bool.and_eq_true, List.all_eq_true, validMember, decide_eq_true_eq]
+  constructor
+  · rintro ⟨h1, h2⟩; exact ⟨fun m hm => mem_members.2 (h1 m hm), h2⟩
+  · rintro ⟨h1, h2⟩; exact ⟨fun m hm => mem_members.1 (h1 m hm), h2⟩
+
+theorem holdsCommon_of {ops : List Addr} {ready ex : List Nat} (hsub : ex.Sublist (members ops))
+    (hinc : ∀ m ∈ includedOf ops ex, m ∈ ready) : holdsCommon ops ready ex = true := by
+  obtain ⟨h1, h2⟩ := excluded_ascending hsub
+  simp only [holdsCommon, Bool.and_eq_true, List.all_eq_true, validMember, decide_eq_true_eq,
+    List.contains_iff_mem]
+  exact ⟨⟨isStrictlyAscending_of_pairwise h1, h2⟩, hinc⟩
+
+theorem signing_result_cases (shuf : Nat → List Nat) (seats : List Addr) (k : Nat) :
+    (∃ q, signing shuf seats k = .ok q) ∨ signing shuf seats k = .panic
+      ∨ (signing shuf seats k = .tooMany ∧ seats.length < k) := by
+  unfold signing
+  split
+  · right; right; exact ⟨rfl, by assumption⟩
+  · dsimp only
+    split
+    · right; left; rfl
+    · left; exact ⟨_, rfl⟩
+
+theorem signingSelection_err {sr st : Nat → List Nat} {ops : List Addr} {thr : Nat} {ready : List Nat}
+    (h : signingSelection sr st ops thr ready = .err) : ready.length < thr := by
+  unfold signingSelection readyOperators at h
+  split at h
+  · cases h
+  · rcases signing_result_cases sr (ready.map (opOf ops)) thr with ⟨q, hq⟩ | hq | ⟨_, hlen⟩
+    · rw [hq] at h; dsimp only at h; split at h <;> cases h
+    · rw [hq] at h; cases h
+    · simpa using hlen
+
+/-- the signing monitor accepts every output of the signing selection model (real shuffles) -/
+theorem holds_signing_selection {sr st : Nat → List Nat} (hsr : ValidShuf sr) (hst : ValidShuf st)
+    (ops : List Addr) (thr : Nat) (ready : List Nat) :
+    holdsSigning ops thr ready (signingSelection sr st ops thr ready) = true := by
+  cases h : signingSelection sr st ops thr ready with
+  | err => simpa [holdsSigning] using signingSelection_err h
+  | ok ex =>
+    by_cases hw : wellFormedReady ops ready = true
+    · obtain ⟨hv, hn⟩ := wellFormed_iff.1 hw
+      have ht : thr ≤ ready.length := by
+        rcases Nat.lt_or_ge ready.length thr with hlt | hge
+        · exfalso
+          unfold signingSelection readyOperators at h
+          rw [if_neg (by rw [all_valid_of_members hv]; simp)] at h
+          have : signing sr (ready.map (opOf ops)) thr = .tooMany := by
+            unfold signing; rw [if_pos (by simpa using hlt)]
+          rw [this] at h; cases h
+        · exact hge
+      obtain ⟨ex', hex', hlen, hsub⟩ := signing_included_exact hsr hst hn hv ht
+      rw [h] at hex'; injection hex' with hex'; subst hex'
+      simp [holdsSigning, hw, holdsCommon_of (signing_excluded_sublist h) hsub, hlen]
+    · simp [holdsSigning, hw]
+  | panic =>
+    by_cases hw : wellFormedReady ops ready = true
+    · exfalso
+      obtain ⟨hv, hn⟩ := wellFormed_iff.1 hw
+      unfold signingSelection readyOperators at h
+      rw [if_neg (by rw [all_valid_of_members hv]; simp)] at h
+      rcases Nat.lt_or_ge ready.length thr with hlt | hge
+      · have : signing sr (ready.map (opOf ops)) thr = .tooMany := by
+          unfold signing; rw [if_pos (by simpa using hlt)]
+        rw [this] at h; cases h
+      · obtain ⟨q, hq, _⟩ := signing_at_least_k hsr (ready.map (opOf ops)) thr (by simpa using hge)
+        rw [hq] at h; dsimp only at h; split at h <;> cases h
+    · simp [holdsSigning, hw]
+
+theorem dkgQualified_no_panic {sh : Nat → List Nat} (hv : ValidShuf sh) (ops : List Addr) (q a : Nat)
+    (ready : List Nat) : dkgQualified sh ops q a ready ≠ .panic := by
+  unfold dkgQualified
+  split
+  · simp
+  · exact keygen_no_panic hv false _ _ _
+
+theorem dkg_ok_shape {sh ops q a ready ex} (h : dkgSelection sh ops q a ready = .ok ex) :
+    ∃ qual, ex = (members ops).filter (fun m => !isIncluded ops qual ready m) := by
+  unfold dkgSelection at h
+  split at h
+  · cases h
+  · split at h
+    · injection h with h; exact ⟨_, h.symm⟩
+    · cases h
+    · cases h
+
+/-- the DKG monitor accepts every output of the DKG selection model (real shuffle) -/
+theorem holds_dkg_selection {sh : Nat → List Nat} (hsh : ValidShuf sh) (ops : List Addr) (q a : Nat)
+    (ready : List Nat) : holdsDkg ops q ready (dkgSelection sh ops q a ready) = true := by
+  cases h : dkgSelection sh ops q a ready with
+  | err => rfl
+  | panic =>
+    by_cases hw : wellFormedReady ops ready = true
+    · exfalso
+      obtain ⟨hv, _⟩ := wellFormed_iff.1 hw
+      unfold dkgSelection at h
+      rw [if_neg (by rw [all_valid_of_members hv]; simp)] at h
+      have := dkgQualified_no_panic hsh ops q a ready
+      split at h
+      · cases h
+      · rename_i hp; exact this hp
+      · cases h
+    · simp [holdsDkg, hw]
+  | ok ex =>
+    by_cases hw : wellFormedReady ops ready = true
+    · by_cases hq : q ≤ ready.length
+      · obtain ⟨hv, hn⟩ := wellFormed_iff.1 hw
+        have hinc : ∀ m ∈ includedOf ops ex, m ∈ ready := by
+          intro m hm
+          have := List.mem_filter.1 hm
+          exact (dkg_included_subset h this.1 (by simpa using this.2)).1
+        have hquo := dkg_included_at_least_quorum hn hv hq h
+        have hat : operatorsAtomic ops ready ex = true := by
+          obtain ⟨qual, rfl⟩ := dkg_ok_shape h
+          simp only [operatorsAtomic, List.all_eq_true, Bool.or_eq_true, bne_iff_ne, ne_eq, beq_iff_eq]
+          intro m hm m' hm'
+          by_cases he : opOf ops m = opOf ops m'
+          · right
+            rw [Bool.eq_iff_iff]
+            have c1 : ready.contains m = true := by simpa using hm
+            have c2 : ready.contains m' = true := by simpa using hm'
+            simp only [List.contains_iff_mem, List.mem_filter, hv m hm, hv m' hm', true_and, isIncluded, he,
+              c1, c2]
+          · left; exact he
+        simp [holdsDkg, hw, holdsCommon_of (dkg_excluded_sublist h) hinc, hquo, hat]
+      · simp [holdsDkg, hw, Nat.lt_of_not_le hq]
+    · simp [holdsDkg, hw]
+
+/-! ## non-vacuity -/
 
 example : signingSelection (fun n => List.range n) (fun n => List.range n) [7, 7, 8, 9, 9] 3 [5, 1, 2, 3]
     = .ok [4, 5] := by decide
